@@ -1604,6 +1604,16 @@ impl DefaultPhysicalPlanner {
 
                 // TODO: Allow PWMJ to deal with residual equijoin conditions
                 let join: Arc<dyn ExecutionPlan> = if join_on.is_empty() {
+                    if *null_aware && join_filter.is_some() {
+                        // The `NOT IN` equality is still part of the join filter
+                        // (`ExtractEquijoinPredicate` has not run). PiecewiseMergeJoinExec
+                        // and NestedLoopJoinExec do not implement null-aware anti-join
+                        // semantics: executing the join as a plain anti join would
+                        // return wrong results when a `NOT IN` key is NULL.
+                        return not_impl_err!(
+                            "Null-aware anti join without equi-join keys is not supported"
+                        );
+                    }
                     if join_filter.is_none() && *join_type == JoinType::Inner {
                         // cross join if there is no join conditions and no join filter set
                         Arc::new(CrossJoinExec::new(physical_left, physical_right))
